@@ -378,7 +378,7 @@ pub fn plan(us: &[Universe; 2], tier: Tier) -> Plan {
 	}
 
 	// F6: large valid sets, every order with one duplication
-	pools.push(Pool { family: "six-dup", era: Era::Past, msgs: l(u, &["ca1", "ca2", "u1a1", "u1b2", "u2c2", "na_b2"]), constrained: true, dup: true, ops: vec![], max_ops: 0 });
+	pools.push(Pool { family: "six-dup", era: Era::Past, msgs: l(u, &["ca1", "ca2", "u1b2", "u2c2", "na_b2", "na_c2"]), constrained: true, dup: true, ops: vec![], max_ops: 0 });
 	if th {
 		pools.push(Pool { family: "seven-dup", era: Era::Past, msgs: l(u, &["ca1", "ca2", "u1a1", "u1a2", "u1b1", "u2b1", "na_b1"]), constrained: true, dup: true, ops: vec![], max_ops: 0 });
 		pools.push(Pool { family: "seven-dup", era: Era::Past, msgs: l(u, &["ca1", "u1a1", "u1a2", "u1b1", "u1b2", "na_a1", "na_a2"]), constrained: true, dup: true, ops: vec![], max_ops: 0 });
